@@ -45,7 +45,7 @@ def build(tier):
         qs.append(dq(3, 1, 65, 2, 66))
     for p_, q_ in solver:
         for plen in (1, 9):
-            if plen == 9 and p_ * q_ > 9 and tier == "quick":
+            if plen == 9 and p_ * q_ > 6 and tier == "quick":
                 continue
             q = dq(7, p_, q_, plen=plen, timeout=1800 if tier == "quick" else 5400)
             q.mem_gb = 12 if tier == "quick" else 30
